@@ -223,6 +223,31 @@ pub fn run_c14(tier: &str, seed: u64) -> Report {
         c14_eval(&c, r);
     });
     total.merge(r);
+    // one builder, several builds with set/remove in between
+    let nm = |p: P| match (p, thorough) {
+        (P::V4L, false) => 1500,
+        (P::V1P, false) => 30,
+        (P::V3P, false) => 50,
+        (_, false) => 150,
+        (P::V4L, true) => 40_000,
+        (P::V1P, true) => 600,
+        (P::V3P, true) => 1000,
+        (_, true) => 5000,
+    };
+    let mut mitems: Vec<(P, usize)> = Vec::new();
+    for &p in &ALL {
+        for j in 0..nm(p) {
+            mitems.push((p, j));
+        }
+    }
+    let r = parallel(mitems.len(), util::threads(), |i, r| {
+        let (p, j) = mitems[i];
+        let mut rng = Rng::new(seed, "c14-multi", (p as u64) << 32 | j as u64);
+        let c = C14Multi { p, key: pools.key(p, j % pools.count(p)), ops: random_multi(&mut rng) };
+        c14_multi_eval(&c, r);
+    });
+    total.merge(r);
+    total.require("multi-build: later builds equal", 500);
     // fixed corner catalogue on v4.local
     let key = pools.key(P::V4L, 0);
     let corners: Vec<Vec<ClaimOp>> = vec![
@@ -257,6 +282,96 @@ pub fn run_c14(tier: &str, seed: u64) -> Report {
     total
 }
 
+/// ONE GenericBuilder, several builds, claims set and removed in between: every token must equal the model at that point
+#[derive(Clone, Debug, Serialize, Deserialize)]
+pub struct C14Multi {
+    pub p: P,
+    pub key: KeyMat,
+    pub ops: Vec<GOp>,
+}
+
+fn c14_multi_eval(c: &C14Multi, r: &mut Report) {
+    let outs = generic_run(c.p, &c.key, &c.ops);
+    let replay = || json!({"cmd": "C14-multi", "case": c});
+    let tag = c.p.name();
+    let mut model: Vec<ClaimOp> = Vec::new();
+    let mut footer: Option<String> = None;
+    let mut ia: Option<String> = None;
+    let mut bi = 0;
+    let mut nth = 0;
+    let word: Vec<String> = c.ops.iter().map(|o| match o { GOp::Set(cl) => format!("set({})", cl.key()), GOp::Remove(k) => format!("remove({})", k), GOp::Footer(_) => "footer".into(), GOp::Assertion(_) => "assertion".into(), GOp::Build => "BUILD".into() }).collect();
+    for op in &c.ops {
+        match op {
+            GOp::Set(cl) => model.push(ClaimOp::Set(cl.clone())),
+            GOp::Remove(k) => model.push(ClaimOp::Remove(k.clone())),
+            GOp::Footer(f) => footer = Some(f.clone()),
+            GOp::Assertion(a) if c.p.has_assertion() => ia = Some(a.clone()),
+            GOp::Assertion(_) => {}
+            GOp::Build => {
+                nth += 1;
+                r.evaluations += 1;
+                let out = outs.get(bi).cloned().unwrap_or(Out::Err("harness: missing build outcome".into()));
+                bi += 1;
+                let tok = match out {
+                    Out::Ok(t) => t,
+                    o => {
+                        r.violation(format!("C14 multi-build build-failed {}", tag), format!("{} [{}] build #{} failed: {}", tag, word.join(" "), nth, o.brief()), replay());
+                        continue;
+                    }
+                };
+                let cfg = ParserCfg { footer: footer.clone(), assertion: ia.clone(), ..Default::default() };
+                let want = model_object(&model);
+                match generic_open(c.p, &c.key, &tok, &cfg).0 {
+                    Out::Ok(Value::Object(got)) if got == want => {
+                        r.count(&format!("{} multi-build token equals the model", tag));
+                        r.count(if nth == 1 { "multi-build: first builds equal" } else { "multi-build: later builds equal" });
+                        r.distinct(format!("{}|multi|{}|{}", tag, word.len(), nth));
+                        if r.samples.len() < 10 && nth >= 2 && r.evaluations % 37 == 1 {
+                            r.sample(json!({"protocol": tag, "one_builder_history": word, "build_no": nth, "parsed_equals_model": want}));
+                        }
+                    }
+                    Out::Ok(Value::Object(got)) => r.violation(
+                        format!("C14 multi-build claims-differ {} build={}", tag, if nth == 1 { "first" } else { "later" }),
+                        format!("{} ONE builder [{}] build #{}: {}", tag, word.join(" "), nth, diff_objects(&want, &got)),
+                        replay(),
+                    ),
+                    o => r.violation(format!("C14 multi-build parse-failed {} {}", tag, o.class()), format!("{} ONE builder [{}] build #{}: token does not parse with the footer/assertion in force: {}", tag, word.join(" "), nth, o.brief()), replay()),
+                }
+            }
+        }
+    }
+}
+
+fn random_multi(rng: &mut Rng) -> Vec<GOp> {
+    let n = 3 + rng.below(14);
+    let mut ops = Vec::new();
+    let mut keys: Vec<String> = Vec::new();
+    for _ in 0..n {
+        match rng.below(10) {
+            0..=3 => {
+                let c = random_claim(rng, &keys);
+                keys.push(c.key().to_string());
+                ops.push(GOp::Set(c));
+            }
+            4 | 5 if !keys.is_empty() => ops.push(GOp::Remove(rng.pick(&keys).clone())),
+            6 => ops.push(GOp::Footer(rng.utf8_upto(12))),
+            7 => ops.push(GOp::Assertion(rng.utf8_upto(12))),
+            _ => ops.push(GOp::Build),
+        }
+    }
+    ops.push(GOp::Build);
+    ops
+}
+
+pub fn replay_c14_multi(case: &Value) -> Report {
+    let mut r = Report::new();
+    match serde_json::from_value::<C14Multi>(case.clone()) {
+        Ok(c) => c14_multi_eval(&c, &mut r),
+        Err(e) => r.inconclusive.push(format!("cannot decode replay case: {}", e)),
+    }
+    r
+}
+
 pub fn replay_c14(case: &Value) -> Report {
     let mut r = Report::new();
     match serde_json::from_value::<C14Case>(case.clone()) {
@@ -266,7 +381,7 @@ pub fn replay_c14(case: &Value) -> Report {
     r
 }
 
-pub const RULE_C14: &str = "seeded random histories of 0..12 (every 16th: 0..60) set_claim/remove_claim operations on GenericBuilder (6000 on v4.local, 100-300 on each other protocol; thorough 2e5 / 3e3-2e4) plus a fixed corner catalogue: keys = non-empty Unicode (escapes, NUL, non-BMP, 200-byte keys, near-reserved names, keys equal to a member name inside their own value); values = JSON trees of depth <= 5 (i64/u64 extremes, exact short decimals, empty containers, null), native Rust values through Serialize (structs, tuples, Option, Vec, BTreeMap, enums, char, bytes) and registered claims through their typed constructors; the token is parsed back with a validator-free GenericParser and the whole object compared (serde_json equality) with a model map (last write wins, remove deletes) built by the harness. distinct_nontrivial = distinct (protocol, #ops, #sets, #members, value-shape signature) that built, parsed and compared equal";
+pub const RULE_C14: &str = "seeded random histories of 0..12 (every 16th: 0..60) set_claim/remove_claim operations on GenericBuilder (6000 on v4.local, 100-300 on each other protocol; thorough 2e5 / 3e3-2e4) plus a fixed corner catalogue: keys = non-empty Unicode (escapes, NUL, non-BMP, 200-byte keys, near-reserved names, keys equal to a member name inside their own value); values = JSON trees of depth <= 5 (i64/u64 extremes, exact short decimals, empty containers, null), native Rust values through Serialize (structs, tuples, Option, Vec, BTreeMap, enums, char, bytes) and registered claims through their typed constructors; the token is parsed back with a validator-free GenericParser and the whole object compared (serde_json equality) with a model map (last write wins, remove deletes) built by the harness. Plus multi-build histories (1500 on v4.local, 30-150 elsewhere; thorough 4e4): ONE GenericBuilder is driven through 3-17 set/remove/footer/assertion/build steps and EVERY token it emits must equal the model at that point. distinct_nontrivial = distinct (protocol, #ops, #sets, #members, value-shape signature) that built, parsed and compared equal";
 
 // ==========================================================================================
 // C15
@@ -499,6 +614,20 @@ fn c15_token_claims(rng: &mut Rng, allow_time: bool) -> Vec<ClaimOp> {
             ops.push(ClaimOp::Set(c));
         }
     }
+    // keys that look like paths / pointers / indices: they must be treated as plain member names
+    if rng.chance(1, 3) {
+        let k = ["https://example.com/role", "a/b", "/", "a~1b", "~0", "o/x", "a.b", "a[0]", "0", "$.a", "role/"][rng.below(11)].to_string();
+        if seen.insert(k.clone()) {
+            ops.push(ClaimOp::Set(Claim::Custom(k.clone(), json!(format!("v-{}", rng.below(100))))));
+        }
+        // ... including when a nested member with that "path" exists and holds something else
+        if k == "a/b" && seen.insert("a".into()) {
+            ops.push(ClaimOp::Set(Claim::Custom("a".into(), json!({"b": "nested-b", "c": 1}))));
+        }
+        if k == "o/x" && seen.insert("o".into()) {
+            ops.push(ClaimOp::Set(Claim::Custom("o".into(), json!({"x": 1}))));
+        }
+    }
     ops
 }
 
@@ -657,6 +786,49 @@ pub fn run_c15(tier: &str, seed: u64) -> Report {
     });
     total.merge(r);
 
+    // ---- one parser whose expectation for a key is REPLACED between parses
+    let mut r = Report::new();
+    for &p in &ALL {
+        let key = pools.key(p, 0);
+        let mk = |role: Value, seats: i64| vec![ClaimOp::Set(Claim::Custom("role".into(), role)), ClaimOp::Set(Claim::Custom("seats".into(), json!(seats))), ClaimOp::Set(Claim::Aud("aud-1".into()))];
+        let specs = [mk(json!("admin"), 4), mk(json!("guest"), 4), mk(json!("admin"), 5)];
+        let toks: Vec<String> = specs.iter().filter_map(|s| generic_seal(p, &key, s, None, None).0.ok().cloned()).collect();
+        if toks.len() != 3 {
+            r.inconclusive.push(format!("C15 replace-session: could not build tokens for {}", p.name()));
+            continue;
+        }
+        for (batteries, dp) in [(false, false), (true, false), (true, true)] {
+            let mut steps = Vec::new();
+            let mut expect = Vec::new();
+            let mut what = Vec::new();
+            let mut step = |s: PStep, e: Option<bool>, w: &str| {
+                if let Some(e) = e {
+                    expect.push(e);
+                    what.push(w.to_string());
+                }
+                steps.push(s);
+            };
+            step(PStep::Check(Claim::Custom("role".into(), json!("admin"))), None, "");
+            step(PStep::Check(Claim::Custom("seats".into(), json!(4))), None, "");
+            step(PStep::Parse { token: toks[0].clone(), key: 0 }, Some(true), "expect role=admin seats=4; token admin/4");
+            step(PStep::Parse { token: toks[1].clone(), key: 0 }, Some(false), "same expectation; token guest/4");
+            step(PStep::Check(Claim::Custom("role".into(), json!("guest"))), None, "");
+            step(PStep::Parse { token: toks[1].clone(), key: 0 }, Some(true), "expectation REPLACED by role=guest; token guest/4");
+            step(PStep::Parse { token: toks[0].clone(), key: 0 }, Some(false), "expect role=guest; token admin/4");
+            step(PStep::Check(Claim::Custom("seats".into(), json!(5))), None, "");
+            step(PStep::Check(Claim::Custom("role".into(), json!("admin"))), None, "");
+            step(PStep::Parse { token: toks[2].clone(), key: 0 }, Some(true), "expectation REPLACED by role=admin seats=5; token admin/5");
+            step(PStep::Parse { token: toks[0].clone(), key: 0 }, Some(false), "expect seats=5; token admin/4");
+            step(PStep::Check(Claim::Aud("aud-2".into())), None, "");
+            step(PStep::Parse { token: toks[2].clone(), key: 0 }, Some(false), "additional expectation aud=aud-2; token has aud-1");
+            step(PStep::Check(Claim::Aud("aud-1".into())), None, "");
+            step(PStep::Parse { token: toks[2].clone(), key: 0 }, Some(true), "expectation REPLACED by aud=aud-1; token admin/5/aud-1");
+            let c = crate::c04::SessionCase { prop: "C15".into(), p, batteries, default_parser: dp, keys: vec![key.clone()], footer: None, ia: None, steps, expect, what };
+            crate::c04::session_eval(&c, &mut r);
+        }
+    }
+    total.merge(r);
+
     // ---- PasetoParser::default() + check_claim(exp|nbf): its own class (known finding)
     let mut r = Report::new();
     for &p in &ALL {
@@ -690,7 +862,7 @@ pub fn replay_c15(case: &Value) -> Report {
     r
 }
 
-pub const RULE_C15: &str = "for seeded random token claim sets S (registered string claims, integers, booleans, nested JSON, strings) the expected sets E = {equal, random subset, superset with one absent claim, one value changed (case / trailing space / NUL suffix / type / off-by-one / fraction / negation / extra element), one key changed by one character, expected value on a claim that is present as null, integer-vs-float spelling (don't-care)} are registered with check_claim on GenericParser, PasetoParser::new() and PasetoParser::default() and the authentic token is parsed; oracle = harness-side comparison of S and E: accept iff no discrepancy; a missing-only discrepancy must be reported as Missing(k) for a missing k; an error must name a failing claim. Plus 500 (thorough 5000) histories: one parser processes 8 tokens in 4 orders and every outcome must equal the fresh-parser outcome. Plus PasetoParser::default().check_claim(exp|nbf) as its own class. distinct_nontrivial = distinct (protocol, parser kind, outcome, expectation class, error variant)";
+pub const RULE_C15: &str = "for seeded random token claim sets S (registered string claims, integers, booleans, nested JSON, strings) the expected sets E = {equal, random subset, superset with one absent claim, one value changed (case / trailing space / NUL suffix / type / off-by-one / fraction / negation / extra element), one key changed by one character, expected value on a claim that is present as null, integer-vs-float spelling (don't-care)} are registered with check_claim on GenericParser, PasetoParser::new() and PasetoParser::default() and the authentic token is parsed; oracle = harness-side comparison of S and E: accept iff no discrepancy; a missing-only discrepancy must be reported as Missing(k) for a missing k; an error must name a failing claim. Plus 500 (thorough 5000) histories: one parser processes 8 tokens in 4 orders and every outcome must equal the fresh-parser outcome. Plus sessions in which the expectation for a key is REPLACED on a live parser between parses (check_claim again with another value). Plus PasetoParser::default().check_claim(exp|nbf) as its own class. Token claim keys include path/pointer look-alikes ('a/b' next to a nested a.b, 'https://example.com/role', '~0', 'a[0]'). distinct_nontrivial = distinct (protocol, parser kind, outcome, expectation class, error variant)";
 
 // ==========================================================================================
 // C16
